@@ -192,7 +192,18 @@ func (db *Database) filterAndSortTerms(list []termWithScore, maxTerms int) []str
 }
 
 // BuildUniversalIndex constructs the inverted index. Call after loading/merging commands.
+// A database that maintains a TF-IDF re-ranker (every database loaded from a file does)
+// gets the re-ranker and its pointer-keyed command index rebuilt as well: they describe
+// the same command list and would otherwise lag behind it.
 func (db *Database) BuildUniversalIndex() {
+	db.buildInvertedIndex()
+	if db.tfidf != nil || db.cmdIndex != nil {
+		db.buildTFIDFSearcher()
+	}
+}
+
+// buildInvertedIndex constructs the BM25F inverted index alone.
+func (db *Database) buildInvertedIndex() {
 	idx := &universalIndex{
 		postings: make(map[string][]posting),
 		df:       make(map[string]int),
@@ -284,13 +295,9 @@ func (db *Database) effectiveLimit(limit, def int) int {
 // SearchUniversal performs BM25F search over the index with optional platform/pipeline filters.
 func (db *Database) SearchUniversal(query string, options SearchOptions) []SearchResult {
 	if db.uIndex == nil || db.uIndex.N != len(db.Commands) {
-		// (Re)build lazily if needed
+		// (Re)build lazily if needed; when the command list changed under a loaded
+		// database this refreshes the re-ranker and the pointer-keyed command index too
 		db.BuildUniversalIndex()
-		if db.tfidf != nil || db.cmdIndex != nil {
-			// the command list changed under a loaded database: the re-ranker and the
-			// pointer-keyed command index are stale as well
-			db.buildTFIDFSearcher()
-		}
 	}
 
 	options.Limit = db.effectiveLimit(options.Limit, 10)
